@@ -265,17 +265,18 @@ class C14(fw.Property):
     technique = ("Coq invariant + refinement proofs (FIFO queue per remote, release/failure trichotomy, frame) over an executable model of the "
                  "MessageManager NSTART slice, induction over all event lists; differential correspondence against the real "
                  "Context/TokenManager/MessageManager under a virtual-time loop; independent wire-level oracle")
-    level_text = ("Theorems (closed under the global context) over Model/C14.v / Model/C14refuse.v for every event list: while the transport refuses nothing, "
-                  "at most one exchange per remote and backlog key iff exchange; submission order = (first transmissions and drops) ++ queue per remote; a held-back "
-                  "message is released exactly in the step that ends the exchange ahead by ACK/RST, dropped (with its request failed) exactly on give-up/transport "
-                  "error, otherwise stays; NON and CON-to-idle-remote go out in the submission step; events of one remote leave the others untouched; no "
-                  "AssertionError/KeyError path is reachable; liveness for every schedule: a held-back message has left its queue after `budget` progress steps of the "
-                  "exchange ahead (retransmission budget as measure), hence eventually under the explicit fairness hypothesis `fair`. With a transport that refuses "
-                  "datagrams synchronously the invariant, one-exchange-per-remote and no-internal-error are REFUTED by machine-checked witnesses that the check "
-                  "replays on the implementation (open findings C14-R1, C14-R2).")
+    level_text = ("Theorems (closed under the global context) over Model/C14refuse.v (transport may refuse any datagram synchronously, arbitrary refusal "
+                  "pattern) for every event list: at most one exchange per remote and backlog key iff exchange; submission order = (first transmissions and "
+                  "drops) ++ queue per remote; no AssertionError/KeyError path reachable; a message is discarded only in a step after which no request to its remote "
+                  "is outstanding. Over Model/C14.v (= the general model while nothing is refused, proved): a held-back message is released exactly in the step that "
+                  "ends the exchange ahead by ACK/RST, dropped (with its request failed) exactly on give-up/transport error (a refusal is that very step), "
+                  "otherwise stays; NON and CON-to-idle-remote go out in the submission step; events of one remote leave the others untouched; liveness for "
+                  "every schedule: a held-back message has left its queue after `budget` progress steps of the exchange ahead (retransmission budget as measure), "
+                  "hence eventually under the explicit fairness hypothesis `fair`.")
     level_note = ("Trusted: Coq kernel + vm_compute; the hand-written models' correspondence with messagemanager.py/tokenmanager.py (sampled event scripts, "
                   "compared output-by-output and on the final dict contents); the virtual loop as ideal timer service. Not modelled: incoming requests "
-                  "(dedup, piggy-back), multicast, shutdown, observe; 2^64 token wrap collisions. Theorems for the refusing case are refutations only.")
+                  "(dedup, piggy-back), multicast, shutdown, observe; 2^64 token wrap collisions. The release/drop/held trichotomy, the frame theorems and the liveness "
+                  "theorems are stated for the accepting transport; with refusals the invariant, FIFO accounting, no-internal-error and discarded-only-with-requests-failed are proved.")
     rule = ("streams: script = random event scripts (1-4 remotes, one of them hot; CON/NON requests via Context.request with explicit/hinted/default mtype, raw CON/NON "
             "responses via MessageManager.send_message with a recording monitor, ACK/RST/piggy-backed/separate responses aimed at the exchange that is open "
             "according to generator bookkeeping, stale and cross-remote ACKs, pings, timer firings, time advances, transport errors, cancellations; "
